@@ -22,6 +22,8 @@ import ScyllaVerif.Model.C19PoolInit
 import ScyllaVerif.Model.C19Whole
 import ScyllaVerif.Model.C19FetchPlan
 import ScyllaVerif.Model.C19Establish
+import ScyllaVerif.Model.C19Deadline
+import ScyllaVerif.Model.C19EventWait
 
 namespace ScyllaVerif.Props.C19
 open ScyllaVerif.MergeChannel
@@ -3386,4 +3388,355 @@ example :
 
 end Establish
 
+/-! ### the periodic refresh deadline does not starve a waiting refresh request -/
+section Deadline
+open ScyllaVerif.C19Deadline
+
+/-- `deadline_after` never returns an instant that is already past (for a positive interval): not when the sum fits,
+and not when it overflows. -/
+theorem deadlineAfter_in_future (horizon far start iv : Nat) (hiv : 0 < iv) (hfar : 0 < far) :
+    start < deadlineAfter horizon far start iv := by
+  unfold deadlineAfter; split <;> omega
+
+/-- An interval that overflows `Instant` means "never" (FAR_FUTURE from the start), not "now". -/
+theorem deadlineAfter_never_past (horizon far start iv now : Nat) (hov : horizon < start + iv)
+    (hnow : now < start + far) : ¬ deadlineAfter horizon far start iv ≤ now := by
+  unfold deadlineAfter; split <;> omega
+
+/-- What every reachable state of the loop satisfies. -/
+private structure DInv (s : Loop) : Prop where
+  inflight_plan : s.fullInFlight = true → s.planFull = false
+  pending_owed : s.fullInFlight = false → s.pending = true → s.planFull = true
+  counts : s.received = s.answered + (if s.pending then 1 else 0)
+  last_start : ∀ t c p rest, s.starts = (t, c, p) :: rest → t ≤ s.now ∧ t + min s.interval s.far ≤ s.deadline
+
+/-- consecutive full starts: one caused by the deadline alone is at least min(interval, FAR_FUTURE) after the
+previous start. -/
+def Spaced (gap : Nat) : List (Nat × Cause × Bool) → Prop
+  | (t2, c2, _) :: (t1, c1, p1) :: rest => (c2 = Cause.deadline → t1 + gap ≤ t2) ∧ Spaced gap ((t1, c1, p1) :: rest)
+  | _ => True
+
+private structure DInv2 (s : Loop) : Prop extends DInv s where
+  spaced : Spaced (min s.interval s.far) s.starts
+  carried : ∀ t c p, (t, c, p) ∈ s.starts → p = true → c = Cause.owed
+
+private theorem deadlineAfter_ge (horizon far start iv : Nat) : start + min iv far ≤ deadlineAfter horizon far start iv := by
+  unfold deadlineAfter; split <;> omega
+
+private theorem dinv_startDue (s : Loop) (h : DInv2 s) : DInv2 (startDue s) := by
+  unfold startDue
+  split
+  next hc =>
+    simp only [Bool.and_eq_true, Bool.not_eq_true', Bool.or_eq_true, decide_eq_true_eq] at hc
+    obtain ⟨hnf, hdue⟩ := hc
+    refine ⟨⟨?_, ?_, ?_, ?_⟩, ?_, ?_⟩
+    · intro _; rfl
+    · intro hf; simp at hf
+    · exact h.counts
+    · intro t c p rest he
+      simp only [List.cons.injEq, Prod.mk.injEq] at he
+      obtain ⟨⟨ht, _, _⟩, _⟩ := he
+      subst ht
+      exact ⟨Nat.le_refl _, deadlineAfter_ge _ _ _ _⟩
+    · show Spaced _ (_ :: s.starts)
+      cases hs : s.starts with
+      | nil => simp [Spaced]
+      | cons x rest =>
+        obtain ⟨t1, c1, p1⟩ := x
+        simp only [Spaced]
+        refine ⟨?_, by have := h.spaced; rw [hs] at this; exact this⟩
+        intro hcause
+        have hpf : s.planFull = false := by
+          cases hp : s.planFull with
+          | false => rfl
+          | true => simp [hp] at hcause
+        have hd : s.deadline ≤ s.now := by
+          rcases hdue with hp | hd
+          · rw [hpf] at hp; cases hp
+          · exact hd
+        have := (h.last_start t1 c1 p1 rest hs).2
+        omega
+    · intro t c p hm hp
+      simp only [List.mem_cons, Prod.mk.injEq] at hm
+      rcases hm with ⟨_, hc, hpp⟩ | hm
+      · subst hpp; subst hc
+        have := h.pending_owed hnf hp
+        simp [this]
+      · exact h.carried t c p hm hp
+  next => exact h
+
+private theorem startDue_post (s : Loop) : (startDue s).fullInFlight = false → (startDue s).planFull = false := by
+  unfold startDue
+  split
+  next => intro hf; simp at hf
+  next hc =>
+    intro hf
+    cases hp : s.planFull with
+    | false => rfl
+    | true => simp [hf, hp] at hc
+
+private theorem dinv_arm (s : Loop) (a : Arm) (h : DInv2 s) (hpost : s.fullInFlight = false → s.planFull = false) :
+    DInv2 (arm s a) := by
+  cases a with
+  | refresh =>
+    simp only [arm]
+    by_cases hen : refreshEnabled s = true
+    · rw [if_pos hen]
+      simp only [refreshEnabled, Bool.and_eq_true, Bool.not_eq_true', decide_eq_true_eq] at hen
+      refine ⟨⟨?_, ?_, ?_, h.last_start⟩, h.spaced, h.carried⟩
+      · intro hf; simp [hen.1] at hf
+      · intro _ _; rfl
+      · have hc := h.counts
+        have hp : s.pending = false := by
+          cases hp : s.pending with
+          | false => rfl
+          | true =>
+            -- a pending request with no fetch running means the plan owes a full fetch: impossible right after
+            -- the loop top, which would have started it
+            have h1 := h.pending_owed hen.1 hp
+            have h2 := hpost hen.1
+            rw [h1] at h2; cases h2
+        simp [hp] at hc ⊢; omega
+    · rw [if_neg hen]; exact h
+  | deadline => exact h
+  | fullDone =>
+    simp only [arm]
+    by_cases hf : s.fullInFlight = true
+    · rw [if_pos hf]
+      refine ⟨⟨?_, ?_, ?_, h.last_start⟩, h.spaced, h.carried⟩
+      · intro hf'; simp at hf'
+      · intro _ hp; simp at hp
+      · have hc := h.counts
+        simp only [Bool.false_eq_true, ↓reduceIte, Nat.add_zero]
+        omega
+    · rw [if_neg hf]; exact h
+  | partialFailed =>
+    simp only [arm]
+    by_cases hf : s.fullInFlight = true
+    · rw [if_pos hf]; exact h
+    · rw [if_neg hf]
+      refine ⟨⟨?_, ?_, h.counts, h.last_start⟩, h.spaced, h.carried⟩
+      · intro hf'; exact absurd hf' hf
+      · intro _ _; rfl
+  | other => exact h
+
+private theorem dinv_step (s : Loop) (e : C19Deadline.Ev) (h : DInv2 s) : DInv2 (C19Deadline.step s e) := by
+  cases e with
+  | tick d =>
+    refine ⟨⟨h.inflight_plan, h.pending_owed, h.counts, ?_⟩, h.spaced, h.carried⟩
+    intro t c p rest he
+    have := h.last_start t c p rest he
+    exact ⟨by show t ≤ s.now + d; omega, this.2⟩
+  | request => exact ⟨⟨h.inflight_plan, h.pending_owed, h.counts, h.last_start⟩, h.spaced, h.carried⟩
+  | select a => exact dinv_arm _ a (dinv_startDue s h) (startDue_post s)
+
+private theorem dinv_init (horizon far iv now : Nat) : DInv2 (C19Deadline.init horizon far iv now) := by
+  refine ⟨⟨?_, ?_, ?_, ?_⟩, ?_, ?_⟩ <;> simp [C19Deadline.init, Spaced]
+
+private theorem dinv_run (evs : List C19Deadline.Ev) : ∀ s, DInv2 s → DInv2 (C19Deadline.run s evs) := by
+  induction evs with
+  | nil => intro s h; exact h
+  | cons e es ih => intro s h; exact ih _ (dinv_step s e h)
+
+private theorem run_params (evs : List C19Deadline.Ev) : ∀ s, (C19Deadline.run s evs).interval = s.interval ∧
+    (C19Deadline.run s evs).far = s.far := by
+  induction evs with
+  | nil => intro s; exact ⟨rfl, rfl⟩
+  | cons e es ih =>
+    intro s
+    have h := ih (C19Deadline.step s e)
+    have hs : (C19Deadline.step s e).interval = s.interval ∧ (C19Deadline.step s e).far = s.far := by
+      cases e with
+      | tick d => exact ⟨rfl, rfl⟩
+      | request => exact ⟨rfl, rfl⟩
+      | select a =>
+        have h1 : (startDue s).interval = s.interval ∧ (startDue s).far = s.far := by
+          unfold startDue; split <;> exact ⟨rfl, rfl⟩
+        cases a <;> simp only [C19Deadline.step, arm] <;> (try split) <;> exact h1
+    exact ⟨h.1.trans hs.1, h.2.trans hs.2⟩
+
+/-- FULL FETCHES DO NOT RUN BACK TO BACK: over every history of the loop (any interval, overflowing or not, any
+schedule of `select!` picks, requests and clock ticks), a full fetch started by the periodic deadline alone starts at
+least min(interval, FAR_FUTURE) after the previous full fetch was started. -/
+theorem periodic_full_fetches_are_spaced (horizon far iv now : Nat) (evs : List C19Deadline.Ev) :
+    Spaced (min iv far) (C19Deadline.run (C19Deadline.init horizon far iv now) evs).starts := by
+  have h := (dinv_run evs _ (dinv_init horizon far iv now)).spaced
+  have hp := run_params evs (C19Deadline.init horizon far iv now)
+  rw [hp.1, hp.2] at h
+  exact h
+
+/-- Every request the loop received is answered by a published full fetch or is the pending one, and a full fetch that
+carries a request was started because the plan owed it (never by the deadline alone with a request riding along
+unnoticed). -/
+theorem received_requests_answered_or_pending (horizon far iv now : Nat) (evs : List C19Deadline.Ev) :
+    let s := C19Deadline.run (C19Deadline.init horizon far iv now) evs
+    s.received = s.answered + (if s.pending then 1 else 0) ∧
+    (∀ t c p, (t, c, p) ∈ s.starts → p = true → c = Cause.owed) := by
+  have h := dinv_run evs _ (dinv_init horizon far iv now)
+  exact ⟨h.counts, h.carried⟩
+
+/-- THE AUDIT'S THEOREM. In any reachable state where a full fetch is in flight, a request waits in `refresh_channel`
+and the deadline is not already past (which `deadlineAfter_in_future` guarantees at the instant the fetch was started,
+for every positive interval): when the fetch completes, the loop top starts NOTHING, so the `refresh_channel` arm is
+enabled at the following `select!`; when it is picked the request becomes the pending one, and the very next loop
+top - whatever time has passed and whichever arm is picked next - starts the full fetch that carries it. -/
+theorem waiting_request_received_before_next_full_start (horizon far iv now0 : Nat) (evs : List C19Deadline.Ev)
+    (d : Nat) (a : Arm) :
+    let s := C19Deadline.run (C19Deadline.init horizon far iv now0) evs
+    s.fullInFlight = true → 0 < s.waiting → s.now < s.deadline →
+    let s1 := C19Deadline.step s (.select .fullDone)
+    let s2 := C19Deadline.step s1 (.select .refresh)
+    let s3 := C19Deadline.step (C19Deadline.step s2 (.tick d)) (.select a)
+    s1.fullInFlight = false ∧ (startDue s1).starts = s.starts ∧ refreshEnabled (startDue s1) = true ∧
+    s2.pending = true ∧ s2.received = s.received + 1 ∧ s2.starts = s.starts ∧
+    s3.starts = (s.now + d, Cause.owed, true) :: s.starts := by
+  intro s hf hw hd
+  have hinv := dinv_run evs _ (dinv_init horizon far iv now0)
+  have hpf : s.planFull = false := hinv.inflight_plan hf
+  have hsd : startDue s = s := by unfold startDue; simp [hf]
+  have hnd : ¬ s.deadline ≤ s.now := by omega
+  have e1 : C19Deadline.step s (.select .fullDone) =
+      { s with fullInFlight := false, pending := false, answered := s.answered + (if s.pending then 1 else 0) } := by
+    simp [C19Deadline.step, hsd, arm, hf]
+  have hsd1 : startDue (C19Deadline.step s (.select .fullDone)) = C19Deadline.step s (.select .fullDone) := by
+    rw [e1]; unfold startDue; simp [hpf, hnd]
+  have e2 : C19Deadline.step (C19Deadline.step s (.select .fullDone)) (.select .refresh) =
+      { s with fullInFlight := false, pending := true, planFull := true, waiting := s.waiting - 1,
+               received := s.received + 1, answered := s.answered + (if s.pending then 1 else 0) } := by
+    show arm (startDue (C19Deadline.step s (.select .fullDone))) .refresh = _
+    rw [hsd1, e1]; simp [arm, refreshEnabled, hw]
+  refine ⟨by rw [e1], by rw [hsd1, e1], ?_, by rw [e2], by rw [e2], by rw [e2], ?_⟩
+  · rw [hsd1, e1]; simp [refreshEnabled, hw]
+  · show (arm (startDue (C19Deadline.step _ (.tick d))) a).starts = _
+    rw [e2]
+    have : (startDue (C19Deadline.step
+        { s with fullInFlight := false, pending := true, planFull := true, waiting := s.waiting - 1, received := s.received + 1, answered := s.answered + (if s.pending then 1 else 0) }
+        (.tick d))).starts = (s.now + d, Cause.owed, true) :: s.starts := by
+      simp [C19Deadline.step, startDue]
+    cases a <;> simp only [arm] <;> (try split) <;> first | exact this | skip
+    all_goals simp_all [C19Deadline.step, startDue]
+
+/-- Non-vacuity, and the repaired code on the interval that was broken: `Duration::MAX` (overflowing) - a request made
+while the first periodic fetch runs is received after it completes and gets its own fetch. -/
+example :
+    let s := C19Deadline.run (C19Deadline.init 1000 300 5000 10)
+      [.tick 300, .select .other, .request, .select .fullDone, .select .refresh, .select .other, .select .fullDone]
+    s.starts = [(310, Cause.owed, true), (310, Cause.deadline, false)] ∧ s.received = 1 ∧ s.answered = 1 := by decide
+
+/-- THE DEFECT REPAIRED BY /repo 3ab1ad9, stated on the old `deadline_after` (`Instant::now()` on overflow): with an
+interval that overflows `Instant` NO schedule whatsoever ever receives a refresh request - the loop top starts a full
+fetch whenever none runs, so the guard `!full_fetch_in_flight` of the `refresh_channel` arm is false at every
+`select!`. (A statement about `runOld`, the loop with the old function; the model's own `run` uses the repaired one.) -/
+theorem old_deadline_starves_request (horizon iv now : Nat) (hov : horizon < now + iv) (evs : List C19Deadline.Ev) :
+    (C19Deadline.runOld { horizon, far := 0, interval := iv, now, deadline := deadlineAfterOld horizon now iv } evs).received = 0 := by
+  have key : ∀ (evs : List C19Deadline.Ev) (s : Loop),
+      (s.deadline ≤ s.now ∧ s.received = 0 ∧ s.planFull = false ∧ s.horizon < s.now + s.interval) →
+      (C19Deadline.runOld s evs).received = 0 := by
+    intro evs
+    induction evs with
+    | nil => intro s h; exact h.2.1
+    | cons e es ih =>
+      intro s h
+      apply ih
+      obtain ⟨h1, h2, h3, h4⟩ := h
+      cases e with
+      | tick d => exact ⟨by show s.deadline ≤ s.now + d; omega, h2, h3, by show s.horizon < s.now + d + s.interval; omega⟩
+      | request => exact ⟨h1, h2, h3, h4⟩
+      | select a =>
+        have hov' : ¬ s.now + s.interval ≤ s.horizon := by omega
+        by_cases hf : s.fullInFlight = true
+        · have hsd : startDueOld s = s := by unfold startDueOld; simp [hf]
+          cases a <;> simp [C19Deadline.stepOld, hsd, arm, refreshEnabled, hf, h1, h2, h3, h4]
+        · have hf' : s.fullInFlight = false := by simpa using hf
+          have hsd : startDueOld s =
+              { s with planFull := false, deadline := s.now, fullInFlight := true, starts := (s.now, Cause.deadline, s.pending) :: s.starts } := by
+            unfold startDueOld; simp [hf', h1, h3, deadlineAfterOld, hov']
+          cases a <;> simp [C19Deadline.stepOld, hsd, arm, refreshEnabled, h2, h4]
+  apply key
+  simp [deadlineAfterOld, show ¬ now + iv ≤ horizon by omega, hov]
+
+end Deadline
+/-! ### `wait_for_event` hands every server event on exactly once, cancelled and restarted waits included -/
+section EventWait
+open ScyllaVerif.C19EventWait
+
+private theorem ew_step (c : Conn) (op : Op) (h : c.delivered ++ c.queue = c.accepted) :
+    (C19EventWait.step c op).delivered ++ (C19EventWait.step c op).queue = (C19EventWait.step c op).accepted := by
+  cases op with
+  | push e =>
+    simp only [C19EventWait.step]; split
+    · simp [← h]
+    · exact h
+  | breakConn => simp only [C19EventWait.step]; split <;> exact h
+  | dropErrSender => simp only [C19EventWait.step]; split <;> exact h
+  | poll b =>
+    simp only [C19EventWait.step, C19EventWait.poll]
+    cases hq : c.queue with
+    | nil => simp only []; split <;> simp_all
+    | cons e rest => simp only []; split <;> simp_all
+  | cancel => exact h
+
+/-- EVERY SERVER EVENT EXACTLY ONCE, IN ORDER: over every history of the reader delivering events, the connection
+failing, and `wait_for_event()` futures being polled, DROPPED (cancelled - the `select!` of `work_on_cc` /
+`fetch_on_candidate` picked another arm) and started anew, the events returned so far followed by the events still in
+the channel are exactly the events the channel accepted. Nothing is lost by a cancellation, nothing is returned twice. -/
+theorem server_events_delivered_exactly_once_in_order (cap : Nat) (ops : List Op) :
+    let c := C19EventWait.run { cap } ops
+    c.delivered ++ c.queue = c.accepted := by
+  have key : ∀ (ops : List Op) (c : Conn), c.delivered ++ c.queue = c.accepted →
+      (C19EventWait.run c ops).delivered ++ (C19EventWait.run c ops).queue = (C19EventWait.run c ops).accepted := by
+    intro ops
+    induction ops with
+    | nil => intro c h; exact h
+    | cons op rest ih => intro c h; exact ih _ (ew_step c op h)
+  exact key ops _ rfl
+
+/-- A poll returns `Pending` exactly when nothing is ready; with an event queued and no error ready it returns THAT
+event at that very poll - whether the future is fresh or was polled before (the model has no per-future state: the
+differential `evwait` run is what ties the real future to that). -/
+theorem queued_event_returned_by_next_poll (c : Conn) (b : Bool) :
+    ((C19EventWait.poll c b).2 = .pending ↔ (c.queue = [] ∧ errReady c = false)) ∧
+    (∀ e rest, c.queue = e :: rest → errReady c = false →
+      (C19EventWait.poll c b).2 = .event e ∧ (C19EventWait.poll c b).1.queue = rest) := by
+  constructor
+  · unfold C19EventWait.poll
+    cases hq : c.queue with
+    | nil =>
+      simp only []
+      cases he : errReady c <;> simp [errOut]
+      split <;> simp
+    | cons e rest =>
+      simp only []
+      split <;> simp [errOut]
+      split <;> simp
+  · intro e rest hq he
+    simp [C19EventWait.poll, hq, he]
+
+/-- With no error, polling as many times as there are queued events returns all of them (in order), whatever was
+cancelled before. -/
+theorem drain_returns_every_queued_event (c : Conn) (he : errReady c = false) :
+    (C19EventWait.run c (List.replicate c.queue.length (.poll false))).delivered = c.delivered ++ c.queue ∧
+    (C19EventWait.run c (List.replicate c.queue.length (.poll false))).queue = [] := by
+  have key : ∀ (q : List Nat) (c : Conn), c.queue = q → errReady c = false →
+      (C19EventWait.run c (List.replicate q.length (.poll false))).delivered = c.delivered ++ q ∧
+      (C19EventWait.run c (List.replicate q.length (.poll false))).queue = [] := by
+    intro q
+    induction q with
+    | nil => intro c hq _; simp [C19EventWait.run, hq]
+    | cons e rest ih =>
+      intro c hq he
+      have h1 : C19EventWait.step c (.poll false) = { c with queue := rest, delivered := c.delivered ++ [e] } := by
+        simp [C19EventWait.step, C19EventWait.poll, hq]
+      have := ih { c with queue := rest, delivered := c.delivered ++ [e] } rfl (by simpa [errReady] using he)
+      simp only [List.length_cons, List.replicate_succ, C19EventWait.run, List.foldl_cons, h1]
+      simpa [C19EventWait.run] using this
+  exact key c.queue c rfl he
+
+/-- Non-vacuity: a DOWN hint (event 259) taken over two cancelled waits, with a racing error. -/
+example :
+    let c := C19EventWait.run { cap := 2 } [.poll false, .cancel, .push 259, .cancel, .push 7, .push 8, .poll false,
+      .breakConn, .poll false, .poll true]
+    c.accepted = [259, 7] ∧ c.delivered = [259, 7] ∧ c.queue = [] ∧ c.err = .consumed := by decide
+
+end EventWait
 end ScyllaVerif.Props.C19
